@@ -255,6 +255,22 @@ func (c *Cache[K, V]) VerifListKeys(i int) []K {
 	return out
 }
 
+// VerifPeek reads key's resident item without touching policy state, stats or expiry.
+func (c *Cache[K, V]) VerifPeek(key K) (val V, expire, cost int64, ok bool) {
+	kh := c.hasher.Sum(key)
+	s := c.shardByHash(kh)
+	s.mu.RLock()
+	defer s.mu.RUnlock()
+	it, found := s.tab.lookup(kh, key)
+	if !found {
+		return val, 0, 0, false
+	}
+	return it.value, it.expireTime, it.cost, true
+}
+
+// VerifNow is the cache clock reading.
+func (c *Cache[K, V]) VerifNow() int64 { return c.nowNano() }
+
 // VerifFlushRemovals delivers staged removal notifications on the caller's goroutine.
 func (c *Cache[K, V]) VerifFlushRemovals() {
 	if c.removeWake != nil {
